@@ -66,7 +66,7 @@ KINDS = [
     "GetUnitName", "FindUnitCase", "CheckValueForCategory", "quantity.GetValidUnits", "ChangeScalars", "compare",
     "derived request (tuple pairs)", "derived request (list overload, tuple items)", "arithmetic on a composition", "derived request (one category at an exponent)",
     "Unknown-type conversions", "Unknown-type values", "ObtainQuantity(u,c,caption)", "ObtainQuantity(u,None,caption)", "GetUnits()/GetInfos()", "GetInfo", "FindSimilarUnitMatches", "IsValidCategory/CheckQuantityType", "quantity getters", "db.Sum/Multiply",
-    "Unknown-type values (the caller keeps them)",
+    "Unknown-type values (the caller keeps them)", "Create{Area,Volume}QuantityFromLengthQuantity",
 ]  # fmt: skip
 
 
@@ -238,6 +238,17 @@ def run_query(db, q):
             su = Scalar(GetUnknownQuantity("a caption"), x)
             r = [su, su.GetValue("weird label"), su.GetValue(v), Scalar(x, "<unknown>").GetValue("other label"), db.GetQuantityType("weird label"), db.GetQuantityType("other label"),
                  sorted(k for k in db.unit_to_unit_info if "label" in k)]
+        elif kind == "Create{Area,Volume}QuantityFromLengthQuantity":
+            # the helpers that pick the named area / volume unit of a length unit when the table has one ('cm' -> 'cm3'), else compose it
+            from barril.units.posc import CreateAreaQuantityFromLengthQuantity, CreateVolumeQuantityFromLengthQuantity
+
+            lq = ObtainQuantity(u, c)
+            r = []
+            for helper in (CreateVolumeQuantityFromLengthQuantity, CreateAreaQuantityFromLengthQuantity):
+                try:
+                    r.append(helper(lq))
+                except Exception as e:
+                    r.append(H.family(e))
         elif kind == "Unknown-type values (the caller keeps them)":
             # a caller that keeps what it was given (a curve holding its captioned quantity): what is handed out later - after the
             # 'Unknown' category was registered again, under another database - is judged by the definitions of *now*
@@ -458,6 +469,13 @@ def override_scripts():
     kept = [("Unknown-type values (the caller keeps them)", "length", x, "m", "cm", "length") for x in (-5.0, 5.0)]
     for over_kw in ({"override": True, "min_value": 0.0, "valid_units": ["<unknown>"]}, {"override": True, "max_value": 1.0, "valid_units": ["<unknown>"]}):
         scripts.append(unk + [("query", q) for q in kept] + [("reg", ("AddCategory", ("Unknown", "Unknown"), dict(over_kw)))] + [("query", q) for q in kept])
+    # the named cube of a length unit registered after the helper was asked for it; a label of the accept-anything type asked
+    # about and then registered as a unit of that type with a factor of its own
+    cube = vol2 + [reg("AddCategory", "volume", "volume")]
+    helper_q = [("Create{Area,Volume}QuantityFromLengthQuantity", "length", 5.0, uu, uu, "length") for uu in ("cm", "m")]
+    scripts.append(cube + [("query", q) for q in helper_q] + [("reg", ("AddUnit", ("volume", "cubic centimetre", "cm3", "%f*1000000.0", "%f/1000000.0"), {}))] + [("query", q) for q in helper_q])
+    label_q = [(k, "length", 3.0, "m", "weird label", "length") for k in ("Unknown-type values", "Unknown-type conversions", "Unknown-type values (the caller keeps them)")]
+    scripts.append(unk + [("query", q) for q in label_q] + [("reg", ("AddUnit", ("Unknown", "a label that became a unit", "weird label", "%f*2.0", "%f/2.0"), {}))] + [("query", q) for q in label_q])
     # tuple-pair requests first, arithmetic afterwards (and the other way round)
     for first, second in (("derived request (tuple pairs)", "arithmetic on a composition"), ("derived request (list overload, tuple items)", "arithmetic on a composition"), ("arithmetic on a composition", "derived request (tuple pairs)")):
         for cat, u in (("length", "m"), ("length", "cm"), ("depth", "m")):
